@@ -32,7 +32,7 @@ func TestMain(m *testing.M) {
 }
 
 type regOp struct {
-	Kind    string // "R" router-level, "H" add handler, "M" handler-level, "F" a forwarder component placed on this router with N middlewares of its own
+	Kind    string // "R" router-level, "H" add handler, "M" handler-level, "F" a forwarder component placed on this router with N middlewares of its own, "D" a refused AddHandler (duplicate name)
 	Handler int    // for H and M
 	N       int    // number of middlewares in the call (1..2)
 }
@@ -116,8 +116,12 @@ func run(p program) string {
 				mu.Lock()
 				traces[hn] = append(traces[hn], "handler "+name)
 				mu.Unlock()
-				o := message.NewMessage("out", nil)
-				return []*message.Message{o}, nil
+				// 1..3 outputs, distinct objects that share one UUID (or have none): decorators act on every outgoing message
+				outs := []*message.Message{}
+				for k := 0; k <= idx%3; k++ {
+					outs = append(outs, message.NewMessage([]string{"out", ""}[idx%2], []byte(fmt.Sprint(k))))
+				}
+				return outs, nil
 			})
 			added[idx] = true
 		case "M":
@@ -129,6 +133,12 @@ func run(p program) string {
 				ms = append(ms, mk(mwID))
 			}
 			handles[o.Handler].AddMiddleware(ms...)
+		case "D":
+			// an AddHandler call the router refuses (the name is taken; it panics, the caller recovers): it changes nothing
+			func() {
+				defer func() { recover() }()
+				router.AddNoPublisherHandler(p.Names[o.Handler], "in-dup", lib.NewScriptSub(""), func(*message.Message) error { return nil })
+			}()
 		case "F":
 			// a component that puts its own handler on this router: what it was configured with belongs to that handler
 			var ms []message.HandlerMiddleware
@@ -286,11 +296,13 @@ func run(p program) string {
 			return fmt.Sprintf("violation: handler %q ran [%s], expected [%s]", name, strings.Join(got, " "), strings.Join(want, " "))
 		}
 		calls := pubs[idx].Calls()
-		if len(calls) != 1 || len(calls[0].Snaps) != 1 {
+		if len(calls) != 1 || len(calls[0].Snaps) != idx%3+1 {
 			return fmt.Sprintf("violation: handler %q: %d publish calls", name, len(calls))
 		}
-		if got := calls[0].Snaps[0].Meta["pubdec"]; got != wantPub {
-			return fmt.Sprintf("violation: handler %q: publisher decorators acted in order [%s], registered [%s]", name, got, wantPub)
+		for k, sn := range calls[0].Snaps {
+			if got := sn.Meta["pubdec"]; got != wantPub {
+				return fmt.Sprintf("violation: handler %q: publisher decorators acted on output %d of %d in order [%s], registered [%s]", name, k, len(calls[0].Snaps), got, wantPub)
+			}
 		}
 		if got := subdecSeen[idx]; got != wantSub {
 			return fmt.Sprintf("violation: handler %q: subscriber decorators acted in order [%s], registered [%s]", name, got, wantSub)
@@ -401,8 +413,16 @@ func TestRandomRegistrations(t *testing.T) {
 					notAdded = append(notAdded, i)
 				}
 			}
-			k := rapid.IntRange(0, 4).Draw(t, "opKind")
+			k := rapid.IntRange(0, 5).Draw(t, "opKind")
 			switch {
+			case k == 5 && len(added) > 0:
+				hs := []int{}
+				for i := 0; i < nh; i++ {
+					if added[i] {
+						hs = append(hs, i)
+					}
+				}
+				p.Ops = append(p.Ops, regOp{"D", hs[rapid.IntRange(0, len(hs)-1).Draw(t, "refusedDuplicateOf")], 0})
 			case k == 4 && !fwd:
 				fwd = true
 				p.Ops = append(p.Ops, regOp{"F", 0, rapid.IntRange(1, 2).Draw(t, "n")})
